@@ -34,6 +34,10 @@
 #define omp_get_max_threads() 1
 #endif
 
+#ifdef PGM_INDEX_VERIF
+#include "verif_hooks.hpp"
+#endif
+
 namespace pgm::internal {
 
 template<typename T>
@@ -278,6 +282,10 @@ size_t make_segmentation(size_t n, size_t start, size_t end, size_t epsilon, Fin
     size_t c = 0;
     OptimalPiecewiseLinearModel<K, size_t> opt(epsilon);
     auto add_point = [&](K x, size_t y) {
+#ifdef PGM_INDEX_VERIF
+        if (::pgm::verif::add_point_hook)
+            ::pgm::verif::add_point_hook(static_cast<long double>(x), y);
+#endif
         if (!opt.add_point(x, y)) {
             out(opt.get_segment());
             opt.add_point(x, y);
